@@ -639,7 +639,7 @@ def main(argv=None):
     # bounded stand-ins (thorough tier; never counted as proved)
     bounded_res = []
     for name, bound, fn in P.bounded:
-        if a.tier == "thorough" or os.environ.get("PYVC_BOUNDED") == "1":
+        if a.tier == "thorough" or os.environ.get("PYVC_BOUNDED") == "1" or getattr(P, "bounded_in_quick", False):
             try:
                 br = fn(seed)
             except Exception as e:
@@ -651,7 +651,9 @@ def main(argv=None):
                     known_seen.append((f"bounded:{name}", kf[0]))
                 else:
                     os.makedirs(os.path.join(VERIF, "replays", pid), exist_ok=True)
-                    pth = os.path.join(VERIF, "replays", pid, f"bounded_{name}.json")
+                    import re as _re2
+                    slug = _re2.sub(r"[^A-Za-z0-9]+", "-", name)[:40].strip("-")
+                    pth = os.path.join(VERIF, "replays", pid, f"bounded_{slug}_{len(violations)}.json")
                     json.dump(vio, open(pth, "w"), indent=1, default=str)
                     violations.append((f"bounded:{name}", pth, True, vio))
         else:
